@@ -1,8 +1,8 @@
 #!/bin/bash
 # usage: eval_agent.sh <ID> [props...]  -- runs checks against agent patches A and B
 ID=$1; shift
-PROPS="$@"; [ -z "$PROPS" ] && PROPS=${ID#[SVWXYZA]}
-for v in A B C D E F G H I J K L M N P Q; do
+PROPS="$@"; [ -z "$PROPS" ] && PROPS=C${ID: -2}
+for v in A B C D E F G H I J K L M N P Q R S T U; do
   P=/tmp/agents/$ID-out/$v/patch.diff
   [ -f $P ] || continue
   echo "=== $ID/$v  ($(grep -c '^[-+][^-+]' $P) changed lines; files: $(grep '^+++ ' $P | sed 's/+++ b\///' | tr '\n' ' '))"
